@@ -93,7 +93,7 @@ func checkC14(w *World) {
 	e.settle()
 	// R14.1
 	for _, ep := range w.purityEntries() {
-		if ep.Fn == nil || strings.HasPrefix(ep.Name, "exec.Unmarshal") {
+		if ep.Fn == nil {
 			continue
 		}
 		s := e.summary(ep.Fn)
